@@ -3,7 +3,11 @@
    step_c : the flat-buffer record (Model/Arr2D.v, transcription of arr2D.rs);  step_s : the plain grid;
    abs : cell (r,c) of the grid = buffer element r*width+c;  Inv a : length (inner a) = height a * width a.
    Outputs are Ok tt / Err kind / Panic reason; a failing step leaves the state as it was
-   (for the model by construction of [commit]; for the real array it is measured by the correspondence check). *)
+   (for the model by construction of [commit]; for the real array it is measured by the correspondence check).
+   The first five theorems are stated for i64 entries (the machines of Model/Arr2D.v are over Z).  The block at the
+   end (c12_*_any_type) states the same five for EVERY element type T with a Num instance — in particular f64
+   (FNum) — about the machines step_cT / step_sT / observe_cT / observe_sT of Proofs/Arr2DGridT.v, which are the
+   Z machines with T in place of Z (Arr2DGridT.step_cT_Z, step_sT_Z, observe_cT_Z, observe_sT_Z: equal at T := Z). *)
 From Coq Require Import ZArith NArith List Bool Arith Lia.
 From SV Require Import Base.Num Base.Outcome Model.Arr2D Proofs.Arr2D Proofs.Arr2DGrid.
 Import ListNotations.
@@ -120,3 +124,146 @@ Example c12_demo_display :
   = AText (Ok [91; 91; 32; 32; 32; 49; 44; 32; 50; 44; 32; 32; 51; 32; 93; 10;
                32; 91; 32; 45; 49; 48; 44; 32; 53; 44; 32; 49; 50; 32; 93; 93]%N).
 Proof. reflexivity. Qed.
+
+(* ================================================================================================== *)
+(* the same five theorems for EVERY element type (T with Num T; instances: Z = i64, float = f64, R)     *)
+(* ================================================================================================== *)
+From SV Require Import Proofs.Arr2DGridT.
+Local Close Scope Z_scope.
+
+(* the buffer always has height*width elements, for every element type *)
+Theorem c12_inv_any_type : forall (T : Type) (NT : Num T),
+  Inv (@arr_new T) /\ forall (a : arr T) (o : opT T), Inv a -> Inv (fst (step_cT a o)).
+Proof. exact (@Proofs.Arr2DGridT.c12T_inv). Qed.
+Check c12_inv_any_type : forall (T : Type) (NT : Num T),
+  Inv (@arr_new T) /\ forall (a : arr T) (o : opT T), Inv a -> Inv (fst (step_cT a o)).
+Print Assumptions c12_inv_any_type.
+
+(* every operation, every element type: same output (including Err / Panic), abstraction commutes,
+   failure leaves both states unchanged *)
+Theorem c12_refine_any_type : forall (T : Type) (NT : Num T) (a : arr T) (o : opT T), Inv a ->
+  snd (step_cT a o) = snd (step_sT (absT a) o) /\
+  absT (fst (step_cT a o)) = fst (step_sT (absT a) o) /\
+  (snd (step_cT a o) <> Ok tt -> fst (step_cT a o) = a /\ fst (step_sT (absT a) o) = absT a).
+Proof. exact (@Proofs.Arr2DGridT.c12T_refine). Qed.
+Check c12_refine_any_type : forall (T : Type) (NT : Num T) (a : arr T) (o : opT T), Inv a ->
+  snd (step_cT a o) = snd (step_sT (absT a) o) /\
+  absT (fst (step_cT a o)) = fst (step_sT (absT a) o) /\
+  (snd (step_cT a o) <> Ok tt -> fst (step_cT a o) = a /\ fst (step_sT (absT a) o) = absT a).
+Print Assumptions c12_refine_any_type.
+
+(* every observation of a well-formed array is that of its grid, for every element type.  max / min are on both
+   sides ONE left fold `if x > y {x} else {y}` (resp. <) with the class's comparison over the row-major element
+   sequence (no order law is assumed: with NaN there is none); == nested vector is elementwise the class's neqb on
+   both sides (for f64 it is IEEE ==, not reflexive on NaN: nothing about neqb is assumed); Display is for an
+   arbitrary element printer fmt, carried by the query QDisplayT fmt *)
+Theorem c12_observe_any_type : forall (T : Type) (NT : Num T) (a : arr T) (q : queryT T), Inv a ->
+  observe_cT a q = observe_sT (absT a) q.
+Proof. exact (@Proofs.Arr2DGridT.c12T_observe). Qed.
+Check c12_observe_any_type : forall (T : Type) (NT : Num T) (a : arr T) (q : queryT T), Inv a ->
+  observe_cT a q = observe_sT (absT a) q.
+Print Assumptions c12_observe_any_type.
+
+(* histories, for every element type (i64, f64, ...) *)
+Theorem c12_histories_any_type : forall (T : Type) (NT : Num T) (a0 : arr T) (ops : list (opT T)), Inv a0 ->
+  trace_cT a0 ops = trace_sT (absT a0) ops /\
+  forall q : queryT T, observe_cT (run_cT a0 ops) q = observe_sT (run_sT (absT a0) ops) q.
+Proof. exact (@Proofs.Arr2DGridT.c12T_histories). Qed.
+Check c12_histories_any_type : forall (T : Type) (NT : Num T) (a0 : arr T) (ops : list (opT T)), Inv a0 ->
+  trace_cT a0 ops = trace_sT (absT a0) ops /\
+  forall q : queryT T, observe_cT (run_cT a0 ops) q = observe_sT (run_sT (absT a0) ops) q.
+Print Assumptions c12_histories_any_type.
+
+(* the failing outputs are exactly these, for every element type *)
+Theorem c12_invalid_documented_any_type : forall (T : Type) (NT : Num T) (a : arr T), Inv a ->
+  (forall rows : list (list T), snd (step_cT a (OFromNestedT rows)) =
+     match rows with
+     | [] => Ok tt
+     | r0 :: _ => if forallb (fun rw => length rw =? length r0) rows then Ok tt
+                  else Err EInconsistentRowLengths
+     end) /\
+  (forall (data : list T) (d : T) h w, snd (step_cT a (OFromFlatT data d h w)) =
+     if (h * w <? length data) || (h * w =? 0) then Err EInvalidShape else Ok tt) /\
+  (forall h, snd (step_cT a (OReshapeT h)) =
+     if (h =? 0) || negb ((height a * width a) mod h =? 0) then Err EInvalidReshape else Ok tt) /\
+  (forall x y, snd (step_cT a (OSwapRowsT x y)) =
+     if (x =? y) || (width a =? 0) then Ok tt
+     else if height a <=? Nat.max x y then Panic WSliceRange else Ok tt) /\
+  (forall r c (v : T), snd (step_cT a (OSet1T r c v)) =
+     if (r <? height a) && (c <? width a) then Ok tt else Panic WIndex) /\
+  (forall r c (v : T), snd (step_cT a (OSet2T r c v)) =
+     if (r <? height a) && (c <? width a) then Ok tt else Panic WIndex) /\
+  (forall r (vs : list T), snd (step_cT a (OSetRowT r vs)) =
+     if height a <=? r then Panic WIndex
+     else if negb (length vs =? width a) then Panic WSliceRange else Ok tt) /\
+  (forall (v : T) h w n (f : nat -> nat -> T -> T) (k : T -> T) (t : nat -> nat -> T),
+     snd (step_cT a (OFromArrayT h w t)) = Ok tt /\
+     snd (step_cT a (OFullT v h w)) = Ok tt /\ snd (step_cT a (OIdentityT n)) = Ok tt /\
+     snd (step_cT a OTransposeT) = Ok tt /\ snd (step_cT a OTransposeMutT) = Ok tt /\
+     snd (step_cT a (ORowsMutMapT f)) = Ok tt /\ snd (step_cT a (OMapT k)) = Ok tt /\
+     snd (step_cT a OCloneT) = Ok tt /\ snd (step_cT a OTryFromRefT) = Ok tt).
+Proof. exact (@Proofs.Arr2DGridT.c12T_invalid_documented). Qed.
+Check c12_invalid_documented_any_type : forall (T : Type) (NT : Num T) (a : arr T), Inv a ->
+  (forall rows : list (list T), snd (step_cT a (OFromNestedT rows)) =
+     match rows with
+     | [] => Ok tt
+     | r0 :: _ => if forallb (fun rw => length rw =? length r0) rows then Ok tt
+                  else Err EInconsistentRowLengths
+     end) /\
+  (forall (data : list T) (d : T) h w, snd (step_cT a (OFromFlatT data d h w)) =
+     if (h * w <? length data) || (h * w =? 0) then Err EInvalidShape else Ok tt) /\
+  (forall h, snd (step_cT a (OReshapeT h)) =
+     if (h =? 0) || negb ((height a * width a) mod h =? 0) then Err EInvalidReshape else Ok tt) /\
+  (forall x y, snd (step_cT a (OSwapRowsT x y)) =
+     if (x =? y) || (width a =? 0) then Ok tt
+     else if height a <=? Nat.max x y then Panic WSliceRange else Ok tt) /\
+  (forall r c (v : T), snd (step_cT a (OSet1T r c v)) =
+     if (r <? height a) && (c <? width a) then Ok tt else Panic WIndex) /\
+  (forall r c (v : T), snd (step_cT a (OSet2T r c v)) =
+     if (r <? height a) && (c <? width a) then Ok tt else Panic WIndex) /\
+  (forall r (vs : list T), snd (step_cT a (OSetRowT r vs)) =
+     if height a <=? r then Panic WIndex
+     else if negb (length vs =? width a) then Panic WSliceRange else Ok tt) /\
+  (forall (v : T) h w n (f : nat -> nat -> T -> T) (k : T -> T) (t : nat -> nat -> T),
+     snd (step_cT a (OFromArrayT h w t)) = Ok tt /\
+     snd (step_cT a (OFullT v h w)) = Ok tt /\ snd (step_cT a (OIdentityT n)) = Ok tt /\
+     snd (step_cT a OTransposeT) = Ok tt /\ snd (step_cT a OTransposeMutT) = Ok tt /\
+     snd (step_cT a (ORowsMutMapT f)) = Ok tt /\ snd (step_cT a (OMapT k)) = Ok tt /\
+     snd (step_cT a OCloneT) = Ok tt /\ snd (step_cT a OTryFromRefT) = Ok tt).
+Print Assumptions c12_invalid_documented_any_type.
+
+(* ---- non-vacuity at the binary64 instance (FNum), by computation: a history on f64 entries with a NaN, both
+   zeros, an error and a panic; outputs, final state and observations computed on BOTH machines ------------- *)
+From Coq Require Import Floats.
+From SV Require Import Base.FloatBits.
+Definition c12_f64_ops : list (opT PrimFloat.float) :=
+  [OFromNestedT [[0x1.8p+0; nan]; [zero; neg_zero]]%float; OTransposeT; OSwapRowsT 0 1;
+   OReshapeT 3; OReshapeT 1; OSet1T 1 0 one; OMapT (fun x => PrimFloat.add x x)].
+Example c12_f64_trace :
+  trace_cT (NT:=FNum) arr_new c12_f64_ops
+    = [Ok tt; Ok tt; Ok tt; Err EInvalidReshape; Ok tt; Panic WIndex; Ok tt] /\
+  trace_sT (NT:=FNum) (absT arr_new) c12_f64_ops
+    = [Ok tt; Ok tt; Ok tt; Err EInvalidReshape; Ok tt; Panic WIndex; Ok tt].
+Proof. split; vm_compute; reflexivity. Qed.
+(* final state [[NaN, -0.0, 3.0, 0.0]], compared through the bit patterns (-1 = NaN) *)
+Example c12_f64_state :
+  Inv (run_cT (NT:=FNum) arr_new c12_f64_ops) /\
+  shape (run_cT (NT:=FNum) arr_new c12_f64_ops) = (1, 4) /\
+  map float_bits (inner (run_cT (NT:=FNum) arr_new c12_f64_ops))
+    = [(-1)%Z; 9223372036854775808%Z; 4613937818241073152%Z; 0%Z] /\
+  map (map float_bits) (cellsT (run_sT (NT:=FNum) (absT arr_new) c12_f64_ops))
+    = [[(-1)%Z; 9223372036854775808%Z; 4613937818241073152%Z; 0%Z]].
+Proof. repeat split; vm_compute; reflexivity. Qed.
+(* observations: max skips the leading NaN (3.0), min is +0.0 (-0.0 < 0.0 is false), the array is NOT == to
+   its own rows (NaN), index out of range panics — identical on both machines *)
+Definition c12_f64_queries : list (queryT PrimFloat.float) :=
+  [QShapeT; QSizeT; QIsEmptyT; QGet1T 0 1; QGet2T 0 3; QGet1T 1 0; QGet2T 0 4; QRowsT; QIntoIterT; QMaxT; QMinT;
+   QEqNestedT [[nan; neg_zero; 3; zero]]%float; QEqNestedT [[nan; neg_zero; 3]]%float;
+   QDisplayT (fun x => if PrimFloat.ltb x zero then [45; 49]%N else [49]%N)].
+Example c12_f64_observe :
+  map (observe_cT (NT:=FNum) (run_cT (NT:=FNum) arr_new c12_f64_ops)) c12_f64_queries
+  = map (observe_sT (NT:=FNum) (run_sT (NT:=FNum) (absT arr_new) c12_f64_ops)) c12_f64_queries /\
+  map (observe_cT (NT:=FNum) (run_cT (NT:=FNum) arr_new c12_f64_ops)) [QMaxT; QMinT; QGet1T 1 0;
+       QEqNestedT [[nan; neg_zero; 3; zero]]%float]
+  = [AOptT (Ok (Some 3%float)); AOptT (Ok (Some zero)); AElemT (Panic WIndex); AEqT (Ok false)].
+Proof. split; vm_compute; reflexivity. Qed.
